@@ -526,6 +526,22 @@ def run(ctx):
         race_models(ctx)
         run_race(ctx)
         return
+    # the race part runs concurrently with the sequential part (its drivers are latency-bound, not CPU-bound) on a report of its own
+    race_thread, race_ctx, race_err = None, None, []
+    if part != "seq" and not only:
+        import copy, random, threading
+        race_ctx = copy.copy(ctx)
+        race_ctx.rep = vlib.Report(ctx.prop, ctx.tier, ctx.seed)
+        race_ctx.rng = random.Random(ctx.seed * 7919 + 13)
+
+        def _race():
+            try:
+                race_models(race_ctx)
+                run_race(race_ctx)
+            except BaseException as ex:      # re-raised on the main thread
+                race_err.append(ex)
+        race_thread = threading.Thread(target=_race, name="stream-race")
+        race_thread.start()
     rep.assume("pipelines from the catalogue (consumer reduce_stream / for_each / manual next()-cleanup() driver over <= 3 stream adaptors, <= 3 harness sources); "
                "elements are ints; harness sources of length 0..%d ending in done or error, each next() inline or deferred, deferred next() reacting to stop by done or "
                "ignoring it, cleanup() inline/deferred completing with done or error; filter predicates scripted per call" % (2 if ctx.quick else 3))
@@ -562,7 +578,6 @@ def run(ctx):
         else:
             vlib.model_check(ctx, "stream", "StreamsMacro", env=env, workers=1, timeout=3000, xmx="6g")
         return kind, g, time.time() - t0
-    race_models(ctx)
     par = max(1, min(4, vlib.NCPU // 2))
     with concurrent.futures.ThreadPoolExecutor(max_workers=par) as ex:
         for kind, g, secs in ex.map(tlc_job, jobs):
@@ -728,8 +743,25 @@ def run(ctx):
         sh, steps = desc(b)
         rep.sample(dict(kind="tlc-behaviour", shape=sh["text"], cfg=b["cfg"],
                         steps=[dict(k=s["k"], n=s["n"], expect_elems=[e["x"] for e in s["exp"]["elems"]], expect_res=s["exp"]["res"]) for s in b["steps"]]))
-    if part != "seq" and not only:
-        run_race(ctx)
+    if race_thread is not None:
+        race_thread.join()
+        if race_err:
+            raise race_err[0]
+        r2 = race_ctx.rep
+        rep.mc += r2.mc
+        rep.traces += r2.traces
+        rep.events += r2.events
+        rep.evaluations += r2.evaluations
+        rep.distinct |= r2.distinct
+        rep.drift += r2.drift
+        rep.violations += r2.violations
+        rep.notes += r2.notes
+        for a in r2.assumptions:
+            rep.assume(a)
+        for r in r2.rules:
+            rep.rule(r)
+        for sm in r2.samples:
+            rep.sample(sm)
     rep.rule("one evaluation = one TLC behaviour (pipeline shape x source scripts x predicate scripts x external step sequence: start, completion of a deferred "
              "source next()/cleanup(), stop request, scheduler item, manual next()/cleanup()) replayed on the real adaptors, the observation compared after every "
              "step and the event log validated by TLC against StreamMon; distinct_nontrivial = distinct (shape, scripts, step sequence) with more than one step")
